@@ -41,6 +41,17 @@ try:
 except ImportError:
     _NO_MIEANGFUNCS = True
 
+# meaning of the error flag returned by the Fortran code (tmatrix_f/S.f)
+_AMPLD_ERRORS = {
+    1: 'the particle is too large (size parameter needs more than NPN1 '
+       'expansion orders)',
+    2: 'the number of quadrature points needed exceeds NPNG1',
+    3: 'the expansion did not converge within NPN1 orders',
+    4: 'expansion order exceeds NPN1',
+    5: 'an angular parameter is outside its allowable range '
+       '(0 <= theta <= 180 degrees)'}
+
+
 class Tmatrix(ScatteringTheory):
     """
     Computes scattering using the axisymmetric T-matrix solution
@@ -135,7 +146,9 @@ class Tmatrix(ScatteringTheory):
     def _run_tmat(self, args):
         med_wavelen = args[2]
         nang = args[-1]
-        s11, s12, s21, s22 = ampld(*args)
+        s11, s12, s21, s22, ierr = ampld(*args)
+        if ierr != 0:
+            raise TmatrixFailure(_AMPLD_ERRORS.get(ierr, 'error %d' % ierr))
         for s in [s11, s12, s21, s22]:
             s *= (-2j*np.pi/med_wavelen)
         scat_matr = np.array([[s11, s12], [s21, s22]]).transpose()
